@@ -48,6 +48,7 @@ ASSUMPTIONS = [
 ]
 
 T0 = 1_600_000_000
+TICK = 0.001        # virtual time consumed by one filesystem call
 TZS = ['UTC0', 'XXX-5:30', 'XXX+8', 'XXX-14', 'XXX+12']
 HASHES = 'MD5 SHA1'
 
@@ -106,20 +107,26 @@ class TimeEnv:
         gemato.cli.datetime = FakeDatetimeModule(self.clock)
         self.real_scandir = os.scandir
         self.real_open = os.open
+        self.real_time = time.time
         env = self
+
+        def fake_time():
+            env.clock.calls += 1
+            return env.clock.now
+        time.time = fake_time
 
         def scandir(path='.'):
             p = os.path.abspath(os.fspath(path))
             if p.startswith(env.root):
-                env.clock.now += 0.25
                 if env.clock.first_scan is None:
                     env.clock.first_scan = env.clock.now
+                env.clock.now += TICK
             return env.real_scandir(path)
 
         def os_open(path, flags, *a, **kw):
             p = os.path.abspath(os.fspath(path))
             if p.startswith(env.root):
-                env.clock.now += 0.25
+                env.clock.now += TICK
                 if not os.path.basename(p).startswith('Manifest') \
                         and env.clock.first_scan is not None:
                     env.data_opens += 1
@@ -133,6 +140,7 @@ class TimeEnv:
     def __exit__(self, *a):
         os.scandir = self.real_scandir
         os.open = self.real_open
+        time.time = self.real_time
         gemato.cli.datetime = self.old_dt
         if self.old_tz is None:
             os.environ.pop('TZ', None)
@@ -182,12 +190,12 @@ def history(draw):
             })
         rounds.append({
             'ops': ops,
-            'advance': draw(st.sampled_from([0.5, 1, 2, 60, 3600, 19800,
+            'advance': draw(st.sampled_from([0.1, 0.3, 0.5, 1, 2, 60, 3600, 19800,
                                              28800, 43200, 50400, 100000])),
         })
     return {'files': files, 'rounds': rounds,
             'tz': draw(st.sampled_from(TZS)),
-            'frac0': draw(st.sampled_from([0.0, 0.5, 0.999]))}
+            'frac0': draw(st.sampled_from([0.0, 0.5, 0.6, 0.75, 0.999]))}
 
 
 def strat(tier):
